@@ -60,6 +60,8 @@ def run(ctx):
     td = qsend.analyse_todo_do(db, rep)
     attach(r4, td, only={'todo:schedule-only-after-qmail-clean-confirmed', 'todo:nothing-removed-after-files-are-being-written'})
     attach(r4, dst, only={'ds:slot-taken-with-counter-and-reference'})
+    attach(r4, qsend.analyse_messdone(db, rep), only={'md:a-message-that-still-has-a-channel-file-is-left-alone'})
+    attach(r4, qsend.job_slot_sites(db, rep))
     attach(r4, dd, only={'del:slot-freed-only-after-job_close'})
     attach(r4, qsend.analyse_pqadd(db, rep), prefixes=['pqadd:'])
     r4.expect_min(8)
